@@ -245,6 +245,15 @@ func (h *crashHarness) get(key string) (int, []byte, string) {
 	return r.Status, r.Body, r.Header.Get("ETag")
 }
 
+// getMeta: status, body and the user metadata header every upload of the crash scenario sends
+func (h *crashHarness) getMeta(key string) (int, []byte, string) {
+	r := h.inst.Do(impl.Req{Method: "GET", Path: "/" + h.bucket + "/" + key})
+	if r.Panic != "" {
+		return 599, nil, "panic"
+	}
+	return r.Status, r.Body, r.Header.Get("X-Amz-Meta-K")
+}
+
 func newCrashHarness(c *Ctx, kind string) (*crashHarness, error) {
 	h := &crashHarness{kind: kind, bucket: impl.SingleBucketName}
 	if strings.HasSuffix(kind, "-mem") {
@@ -291,12 +300,13 @@ func c15Crash(c *Ctx, kind string) {
 	type kv struct {
 		st   int
 		body string
+		meta string
 	}
 	observe := func(h *crashHarness) (map[string]kv, string) {
 		out := map[string]kv{}
 		for _, k := range allKeys {
-			st, body, _ := h.get(k)
-			out[k] = kv{st, string(body)}
+			st, body, md := h.getMeta(k)
+			out[k] = kv{st, string(body), md}
 		}
 		lr := h.inst.Do(impl.Req{Method: "GET", Path: "/" + h.bucket})
 		listing := fmt.Sprint(lr.Status)
@@ -392,7 +402,11 @@ func c15Crash(c *Ctx, kind string) {
 						break
 					}
 				} else if g != before[key] && g != after[key] {
-					viol, fp = fmt.Sprintf("in-flight %s is neither the old (%d %q) nor the new (%d %q) state: %d %q", key, before[key].st, trunc(before[key].body, 24), after[key].st, trunc(after[key].body, 24), g.st, trunc(g.body, 24)), "c15:crash:in-flight-torn"
+					viol, fp = fmt.Sprintf("in-flight %s is neither the old (%d %q meta %q) nor the new (%d %q meta %q) state: %d %q meta %q", key, before[key].st, trunc(before[key].body, 24), before[key].meta, after[key].st, trunc(after[key].body, 24), after[key].meta, g.st, trunc(g.body, 24), g.meta), "c15:crash:in-flight-torn"
+					if strings.Contains(op.name, "delete") {
+						// a delete has no new bytes to tear: anything but "still there, whole" / "gone" is its own failure
+						fp = "c15:crash:delete-torn"
+					}
 					break
 				}
 			}
